@@ -19,7 +19,7 @@ META = {
             "grpc.ClientConn (testing/synctest, scripted failing / succeeding dialer, ResetConnectBackoff) against the pacing clauses.",
     "note": "math/rand/v2's global source has no seam, so the jitter draw is sampled (1000 draws per case), not enumerated. The pacing "
             "driver uses one address (pick_first) and a scripted dialer whose attempts fail at once, after a part of the backoff, after "
-            "longer than any backoff, or by running into the dial deadline; the wait is judged from the instant the attempt FAILED to the "
+            "longer than any backoff, by running into the dial deadline, or are established (raw server preface) and closed by the peer at once / 1 ms later; the wait is judged from the instant the attempt FAILED to the "
             "start of the next dial: lower bound (1-j) x min(base x m^(idx-1), max) per consecutive failure, and 'first failure after READY "
             "/ ResetConnectBackoff waits the base delay again' (index reset). Multi-address subchannels are not covered.",
     "technique": "TLA+ reference specification model-checked by TLC on a bounded grid; sampled extremes of the real function validated by TLC",
@@ -38,6 +38,7 @@ def run(ctx):
     ctx.neg("BackoffMC", "BackoffNeg.cfg", expect="I_NonNeg", workers=2, stack="64m")
     ctx.neg("BackoffMC", "BackoffNeg2.cfg", expect="I_PaceStep", workers=2, stack="64m")
     ctx.neg("BackoffMC", "BackoffNeg3.cfg", expect="I_PaceStep", workers=2, stack="64m")
+    ctx.neg("BackoffMC", "BackoffNeg4.cfg", expect="I_IndexReset", workers=2, stack="64m")
     binary = ctx.go_build("internal/backoff", name="c20", only=r"zz_verif_c20_")
     path = os.path.join(ctx.run, "c20.ndjson")
     ctx.driver(binary, "TestVerifC20Backoff", {"VERIF_OUT": path, "VERIF_N": ctx.pick(80, 1200), "VERIF_K": ctx.pick(1000, 4000)})
